@@ -1,5 +1,9 @@
 pub mod c01;
+pub mod amlprops;
 pub mod c02;
+pub mod c07;
+pub mod c08;
+pub mod c17;
 pub mod common;
 
 use crate::engine::{Ctx, Violation};
@@ -8,6 +12,9 @@ pub fn run(ctx: &Ctx) -> bool {
     match ctx.prop.as_str() {
         "C01" => c01::run(ctx),
         "C02" => c02::run(ctx),
+        "C07" => c07::run(ctx),
+        "C08" => c08::run(ctx),
+        "C17" => c17::run(ctx),
         _ => return false,
     }
     true
@@ -20,6 +27,9 @@ pub fn replay(prop: &str, check: &str, payload: &serde_json::Value) -> Option<Ve
     Some(match prop {
         "C01" => c01::replay(case),
         "C02" => c02::replay(case),
+        "C07" => c07::replay(case),
+        "C08" => c08::replay(case),
+        "C17" => c17::replay(case),
         _ => return None,
     })
 }
